@@ -330,6 +330,8 @@ def step (s : State) (toks : List String) : State × String :=
   | ["msg", t, snd, peer, v] => msgStep s t snd peer v none
   -- `w<k>`: the sender put server k's identity into the wire message's own `ServerIdentity` field
   | ["msg", t, snd, peer, v, w] =>
+    -- `c`: the message carries a `GenericConfig` (as the first message of a run may): not an input of the check
+    if w = "c" then msgStep s t snd peer v none else
     match claimed? w with
     | some (some k) => msgStep s t snd peer v (some k)
     | _ => (s, "bad-op")
